@@ -135,8 +135,8 @@ func mkDLogger(flds []trFld, prefix string, st *trDState) *zap.Logger {
 	lg := zap.New(&trDCore{v: fldOf(flds, prefix+"core"), st: st})
 	rv := reflect.ValueOf(lg)
 	unexported(rv, "name").SetString(string(fldOf(flds, prefix+"name").bytes()))
-	unexported(rv, "development").SetBool(*fldOf(flds, prefix + "development").B)
-	unexported(rv, "addCaller").SetBool(*fldOf(flds, prefix + "addCaller").B)
+	unexported(rv, "development").SetBool(*fldOf(flds, prefix+"development").B)
+	unexported(rv, "addCaller").SetBool(*fldOf(flds, prefix+"addCaller").B)
 	unexported(rv, "callerSkip").SetInt(fldOf(flds, prefix+"callerSkip").int64())
 	return lg
 }
